@@ -63,7 +63,8 @@ impl Mp4Box for MetaBox {
     }
 
     fn to_json(&self) -> Result<String> {
-        Ok(serde_json::to_string(&self).unwrap())
+        serde_json::to_string(&self)
+            .map_err(|_| Error::InvalidData("meta box cannot be serialized"))
     }
 
     fn summary(&self) -> Result<String> {
